@@ -69,6 +69,15 @@ def main(tier, seed, replay=None):
                     continue
                 got = c04.eval_readback(pr, code, "application/json")
                 key = cvk.get(arm["variant"], "?")
+                # the server encodes payloads as JSON: where JSON is one of the media types declared for the key, the
+                # client must decode a JSON response of that status with its JSON decoder
+                decl = dict(next((cc for k, cc in case if k == key), []))
+                jsonish = [ct for ct, sc in decl.items() if c04.DECODER_OF_CT.get(ct) == "json" and sc is not None]
+                if got == arm["variant"] and jsonish:
+                    gcase = c04.eval_readback_case(pr, code, jsonish[0])
+                    fam = (gcase.get("payload") or "").split(":")[0]
+                    if gcase.get("variant") == arm["variant"] and fam and fam != "json":
+                        viol.append((case, f"server sends variant {arm['variant']} (key {key}, status {code}) as JSON and {jsonish[0]} is declared for it, but the client decodes that response with its {fam} decoder"))
                 if got != arm["variant"]:
                     if key == "default" or arm["variant"] == "Unknown":
                         known_hits.add("default-sent-as-200")
@@ -82,14 +91,15 @@ def main(tier, seed, replay=None):
         if mp is not None:
             sent = [k for k, _ in case]
     n_req = request_leg(tier, seed, viol, known_hits)
-    n_eval += n_req
-    res.counts.update({"request_leg_roundtrips": n_req, "evaluations": n_eval, "distinct_nontrivial": len(cases),
+    n_loop = loopback_leg(viol)
+    n_eval += n_req + n_loop
+    res.counts.update({"request_leg_roundtrips": n_req, "loopback_calls": n_loop, "evaluations": n_eval, "distinct_nontrivial": len(cases),
                        "traces_validated_against_impl": len(cases),
                        "rule": "responses objects from the C04 generator; client-mod and server-mod generated by separate CLI runs; for every response variant the server's IntoResponse status is fed to the client's emitted parse chain (both read back with syn): the client must return the same variant"})
     for c in cases[:3]:
         res.sample({"responses": [[k, [ct for ct, _ in sh]] for k, sh in c]})
     res.cov["trusted_base"] = vlib.COMMON_TRUSTED + ["composition of the C04 and C05 models; python evaluation of the read-back client chain (search oracle)"]
-    res.assumptions = ["only the response/status leg is composed in this round; request legs (path/query/header/body extract∘render) are not modelled; no loopback run"]
+    res.assumptions = ["the response/status leg is composed from the two models; request legs are observed: header / query structs rendered by the client and re-read by the server in the arena, and a loopback run of the generated client against the generated axum router for path values, required and optional JSON bodies and the returned variant"]
     kf = {k["key"]: k["text"] for k in vlib.known_findings("C06")}
     for k in sorted(known_hits):
         if k in kf:
@@ -211,3 +221,96 @@ def request_leg(tier, seed, viol, known_hits):
         if c != s_:
             viol.append((spec, f"{tag}: client value {c} arrives at the server as {s_}"))
     return n
+
+
+# ======================================================================================================
+# loopback leg: the generated client talks to the generated server (axum on 127.0.0.1) — bodies, optional
+# bodies, path / query / header values and the returned variant must survive the round trip.
+# ======================================================================================================
+LOOP_SPEC = {"openapi": "3.1.0", "info": {"title": "loop", "version": "1"}, "paths": {
+    "/jobs/{jobId}/restart": {"post": {"operationId": "restart_job", "parameters": [{"name": "jobId", "in": "path", "required": True, "schema": {"type": "string"}}],
+                                       "requestBody": {"content": {"application/json": {"schema": {"$ref": "#/components/schemas/Reason"}}}},
+                                       "responses": {"202": {"description": "ok", "content": {"application/json": {"schema": {"$ref": "#/components/schemas/Echo"}}}}, "409": {"description": "busy"}}}},
+    "/items": {"post": {"operationId": "create_item", "requestBody": {"required": True, "content": {"application/json": {"schema": {"$ref": "#/components/schemas/Item"}}}},
+                        "responses": {"201": {"description": "made", "content": {"application/json": {"schema": {"$ref": "#/components/schemas/Echo"}}}}}},
+               "get": {"operationId": "find_items", "parameters": [{"name": "q", "in": "query", "required": True, "schema": {"type": "string"}}, {"name": "limit", "in": "query", "schema": {"type": "integer"}},
+                                                                     {"name": "X-Tenant", "in": "header", "schema": {"type": "string"}}],
+                       "responses": {"200": {"description": "ok", "content": {"application/json": {"schema": {"$ref": "#/components/schemas/Echo"}}}}}}}},
+    "components": {"schemas": {"Reason": {"type": "object", "properties": {"reason": {"type": "string"}}},
+                               "Item": {"type": "object", "required": ["name"], "properties": {"name": {"type": "string"}, "qty": {"type": "integer"}}},
+                               "Echo": {"type": "object", "properties": {"seen": {"type": "string"}}}}}}
+
+LOOP_MAIN = r'''
+use case_0 as C;
+use case_1 as S;
+#[derive(Clone)]
+struct Svc;
+impl S::ApiServer for Svc {
+    async fn find_items(&self, request: S::FindItemsRequest) -> anyhow::Result<S::FindItemsResponse> {
+        Ok(S::FindItemsResponse::Ok(S::Echo { seen: Some(format!("q={:?} limit={:?} tenant={:?}", request.query.q, request.query.limit, request.header.x_tenant)) }))
+    }
+    async fn create_item(&self, request: S::CreateItemRequest) -> anyhow::Result<S::CreateItemResponse> {
+        Ok(S::CreateItemResponse::Created(S::Echo { seen: Some(format!("name={:?} qty={:?}", request.body.name, request.body.qty)) }))
+    }
+    async fn restart_job(&self, request: S::RestartJobRequest) -> anyhow::Result<S::RestartJobResponse> {
+        if request.path.job_id == "busy" { return Ok(S::RestartJobResponse::Conflict); }
+        Ok(S::RestartJobResponse::Accepted(S::Echo { seen: Some(format!("job={:?} reason={:?}", request.path.job_id, request.body.map(|b| b.reason))) }))
+    }
+}
+fn main() {
+    let rt = tokio::runtime::Builder::new_multi_thread().worker_threads(2).enable_all().build().unwrap();
+    rt.block_on(async {
+        let listener = tokio::net::TcpListener::bind("127.0.0.1:0").await.unwrap();
+        let port = listener.local_addr().unwrap().port();
+        tokio::spawn(async move { axum::serve(listener, S::router(Svc)).await.unwrap(); });
+        let client = C::LoopClient::with_base_url(format!("http://127.0.0.1:{}", port)).unwrap();
+        let mut r = C::RestartJobRequest::default(); r.path.job_id = "j1".to_string(); r.body = None;
+        println!("1\t{:?}", client.restart_job(r).await.map_err(|e| format!("{:#}", e)));
+        let mut r = C::RestartJobRequest::default(); r.path.job_id = "j/2 x".to_string(); r.body = Some(C::Reason { reason: Some("why".to_string()) });
+        println!("2\t{:?}", client.restart_job(r).await.map_err(|e| format!("{:#}", e)));
+        let mut r = C::RestartJobRequest::default(); r.path.job_id = "busy".to_string();
+        println!("3\t{:?}", client.restart_job(r).await.map_err(|e| format!("{:#}", e)));
+        let mut r = C::CreateItemRequest::default(); r.body = C::Item { name: "n \u{fc}".to_string(), qty: Some(3) };
+        println!("4\t{:?}", client.create_item(r).await.map_err(|e| format!("{:#}", e)));
+        let mut r = C::FindItemsRequest::default(); r.query.q = "a b&c=d".to_string(); r.query.limit = Some(5); r.header.x_tenant = Some("t1".to_string());
+        println!("5\t{:?}", client.find_items(r).await.map_err(|e| format!("{:#}", e)));
+        let mut r = C::FindItemsRequest::default(); r.query.q = "\u{fc}".to_string();
+        println!("6\t{:?}", client.find_items(r).await.map_err(|e| format!("{:#}", e)));
+    });
+}
+'''
+
+LOOP_EXPECT = {
+    "1": 'Ok(Accepted(Echo { seen: Some("job=\\"j1\\" reason=None") }))',
+    "2": 'Ok(Accepted(Echo { seen: Some("job=\\"j/2 x\\" reason=Some(Some(\\"why\\"))") }))',
+    "3": "Ok(Conflict)",
+    "4": 'Ok(Created(Echo { seen: Some("name=\\"n \u00fc\\" qty=Some(3)") }))',
+    "5": 'Ok(Ok(Echo { seen: Some("q=\\"a b&c=d\\" limit=Some(5) tenant=Some(\\"t1\\")") }))',
+    "6": 'Ok(Ok(Echo { seen: Some("q=\\"\u00fc\\" limit=None tenant=None") }))',
+}
+
+
+def loopback_leg(viol):
+    d = vlib.scratch("C06l")
+    sp = os.path.join(d, "spec.json")
+    json.dump(LOOP_SPEC, open(sp, "w"))
+    oc, os_ = os.path.join(d, "client"), os.path.join(d, "server")
+    rc1, t1 = vlib.oas(["generate", "client-mod", "-i", sp, "-o", oc, "-q"])
+    rc2, t2 = vlib.oas(["generate", "server-mod", "-i", sp, "-o", os_, "-q"])
+    if rc1 or rc2:
+        viol.append((LOOP_SPEC, f"loopback spec: generation failed {t1[-100:]} {t2[-100:]}"))
+        return 0
+    ar = arena.Arena("C06l")
+    ar.add_case(0, oc)
+    ar.add_case(1, os_)
+    ar.write_main(LOOP_MAIN)
+    ok, diags, err = ar.cargo("build")
+    if not ok:
+        viol.append((LOOP_SPEC, f"loopback arena does not build: {(diags[0]['rendered'] if diags else err)[:500]}"))
+        return 0
+    rc, outp, errp = ar.run("", timeout=120)
+    got = dict(l.split("\t", 1) for l in outp.split("\n") if "\t" in l)
+    for k, want in LOOP_EXPECT.items():
+        if got.get(k) != want:
+            viol.append((LOOP_SPEC, f"loopback call {k}: the client returns {got.get(k)!r}, the handler was to see / answer {want!r} (rc={rc} {errp[-100:] if not got.get(k) else ''})"))
+    return len(LOOP_EXPECT)
